@@ -2,8 +2,10 @@
 sentences the IO-script language of lean/CovfieModel/Model/IOScript.lean has a meaning for — header, footer, a raw write of one
 data member / a typed read of one, the inner layer's writer / reader, the final `return owning_data_t(…)`.  Result:
    (io <tag> (write H (coord) (coord) I F) (read H (coord) (coord) I F))
-with the tag taken from the struct's `IO_MAGIC_HEADER`.  The array layer's members (width word, count, element loop with
-conversion) are not scripts of this kind; they are tied behaviourally only."""
+with the tag taken from the struct's `IO_MAGIC_HEADER`.  The array layer's members (`io_array`) have their own, richer sentences
+(width word chosen from the scalar type, raw cell count, the double loop over cells and components with the width-dependent
+read, lean/CovfieModel/Model/ArrScript.lean); the result there is
+   (arrio <tag> (write hdr widthOfType rawWidth rawSize cellLoop ftr) (read hdr readWidth checkWidth readSize alloc cellLoop ftr ret))."""
 import re
 from pathlib import Path
 from harness.cxx2imp import strip_comments, Untranslatable, CORE, find_function
@@ -24,6 +26,89 @@ TYPE_KIND = {"decltype(m_min)": "coord", "decltype(m_max)": "coord", "decltype(m
 INNER = r"(?:backend_t::owning_data_t|decltype\(m_(?:storage|backend)\))"
 
 
+# ---- the array layer: sentences over the text with all white space removed (clang-format breaks these lines in odd places)
+_S = r'"(?:[^"\\]|\\.)*"'
+_THROW = lambda ex: r"throwstd::" + ex + r"\((?:" + _S + r")+\);"
+ARR_WRITE = [
+    (r"utility::write_io_header\(fs,IO_MAGIC_HEADER\);", "hdr"),
+    (r"uint32_tfloat_width;ifconstexpr\(std::is_same_v<typename_output_vector_t::type,float>\)\{float_width=4;\}"
+     r"elseifconstexpr\(std::is_same_v<typename_output_vector_t::type,double>\)\{float_width=8;\}else\{" + _THROW("logic_error") + r"\}", "widthOfType"),
+    (r"fs\.write\(reinterpret_cast<constchar\*>\(&float_width\),sizeof\(std::decay_t<decltype\(float_width\)>\)\);", "rawWidth"),
+    (r"fs\.write\(reinterpret_cast<constchar\*>\(&o\.m_size\),sizeof\(std::decay_t<decltype\(o\.m_size\)>\)\);", "rawSize"),
+    (r"for\(std::size_ti=0;i<o\.m_size;\+\+i\)\{for\(std::size_tj=0;j<_output_vector_t::size;\+\+j\)\{"
+     r"fs\.write\(reinterpret_cast<constchar\*>\(&o\.m_ptr\[i\]\[j\]\),sizeof\(typename_output_vector_t::type\)\);\}\}", "cellLoop"),
+    (r"utility::write_io_footer\(fs,IO_MAGIC_HEADER\);", "ftr"),
+]
+ARR_READ = [
+    (r"utility::read_io_header\(fs,IO_MAGIC_HEADER\);", "hdr"),
+    (r"uint32_tfloat_width=utility::read_binary<uint32_t>\(fs\);", "readWidth"),
+    (r"if\(float_width!=4&&float_width!=8\)\{" + _THROW("runtime_error") + r"\}", "checkWidth"),
+    (r"autosize=utility::read_binary<std::decay_t<decltype\(m_size\)>>\(fs\);", "readSize"),
+    (r"std::unique_ptr<vector_t\[\]>ptr=std::make_unique<vector_t\[\]>\(size\);", "alloc"),
+    (r"for\(std::size_ti=0;i<size;\+\+i\)\{for\(std::size_tj=0;j<_output_vector_t::size;\+\+j\)\{usingscalar_t=typename_output_vector_t::type;"
+     r"if\(float_width==4\)\{ptr\[i\]\[j\]=static_cast<scalar_t>\(utility::read_binary<float>\(fs\)\);\}"
+     r"elseif\(float_width==8\)\{ptr\[i\]\[j\]=static_cast<scalar_t>\(utility::read_binary<double>\(fs\)\);\}"
+     r"else\{" + _THROW("logic_error") + r"\}\}\}", "cellLoop"),
+    (r"utility::read_io_footer\(fs,IO_MAGIC_HEADER\);", "ftr"),
+    (r"returnowning_data_t\(size,std::move\(ptr\)\);", "ret"),
+]
+
+
+def _squash(body):
+    """remove white space outside string literals"""
+    out, i = [], 0
+    for m in re.finditer(_S, body):
+        out.append(re.sub(r"\s+", "", body[i:m.start()]))
+        out.append(m.group(0))
+        i = m.end()
+    out.append(re.sub(r"\s+", "", body[i:]))
+    return "".join(out)
+
+
+def _sentences(body, table, what):
+    t, names = _squash(body), []
+    while t:
+        for pat, name in table:
+            m = re.match(pat, t)
+            if m:
+                names.append(name)
+                t = t[m.end():]
+                break
+        else:
+            raise Untranslatable(f"array {what}: statement `{t[:90]}`")
+    return names
+
+
+def translate_array(repo):
+    text = strip_comments((Path(repo) / CORE / "backend/primitive/array.hpp").read_text())
+    m = re.search(r"struct\s+owning_data_t\s*\{", text)
+    if not m:
+        raise Untranslatable("owning_data_t not found")
+    own = text[m.end():]
+    end = re.search(r"struct\s+non_owning_data_t", own)
+    own = own[:end.start()] if end else own
+    try:
+        _, wbody = find_function(own, r"static\s+void\s+write_binary")
+        _, rbody = find_function(own, r"static\s+owning_data_t\s+read_binary")
+        tm = re.search(r"IO_MAGIC_HEADER\s*=\s*(0x[0-9A-Fa-f]+)", text)
+        if not tm:
+            raise Untranslatable("no IO_MAGIC_HEADER")
+        # the constructor the reader's last statement calls must store exactly its two arguments
+        if not re.search(r"owning_data_t\(\s*std::size_t\s+size\s*,\s*std::unique_ptr<vector_t\[\]>\s*&&\s*ptr\s*\)\s*:\s*m_size\(size\)\s*,\s*m_ptr\(std::move\(ptr\)\)\s*\{\s*\}", own):
+            raise Untranslatable("owning_data_t(size, ptr) does not just store its arguments")
+        # rawSize / readSize move sizeof(decltype(m_size)) bytes; the model's count word has 8
+        ms = re.findall(r"\n\s*([\w:<>\[\] ]+?)\s+m_size\s*;", own)
+        if [norm(x) for x in ms] not in (["uint64_t"], ["std::uint64_t"], ["std::size_t"]):
+            raise Untranslatable(f"m_size is declared as {ms}, not as a 64-bit unsigned integer")
+        w = _sentences(wbody, ARR_WRITE, "writer")
+        r = _sentences(rbody, ARR_READ, "reader")
+        return f"(arrio {int(tm.group(1), 16)} (write {' '.join(w)}) (read {' '.join(r)}))"
+    except Untranslatable:
+        raise
+    except (IndexError, KeyError, ValueError, TypeError, AttributeError) as e:
+        raise Untranslatable(f"{type(e).__name__}: {e}")
+
+
 def norm(s):
     return re.sub(r"\s+", " ", s).strip()
 
@@ -33,6 +118,8 @@ def stmts(body):
 
 
 def translate(repo, layer):
+    if layer == "io_array":
+        return translate_array(repo)
     path = Path(repo) / CORE / LAYERS[layer]
     text = strip_comments(path.read_text())
     m = re.search(r"struct\s+owning_data_t\s*\{", text)
@@ -86,7 +173,7 @@ def translate(repo, layer):
 if __name__ == "__main__":
     import sys
     repo = sys.argv[sys.argv.index("--repo") + 1] if "--repo" in sys.argv else "/repo"
-    for k in LAYERS:
+    for k in ["io_array"] + list(LAYERS):
         try:
             print(k, translate(repo, k))
         except Untranslatable as e:
